@@ -107,6 +107,7 @@ pub struct Ctx {
     pub replay_verdict: Option<Verdict>,
     open_known: Vec<KnownEntry>,
     pub max_shrink_iters: u32,
+    pub harness_errors: Vec<String>,
 }
 
 #[derive(Clone, Debug)]
@@ -249,6 +250,7 @@ impl Ctx {
             replay_verdict: None,
             open_known,
             max_shrink_iters: 2048,
+            harness_errors: Vec::new(),
         }
     }
 
@@ -547,7 +549,11 @@ impl Ctx {
             "enumerated_space": enumerated, "completed": fail.is_none(),
             "wall_s": (t0.elapsed().as_secs_f64()*1000.0).round()/1000.0,
         }));
-        if let Some((idx, case, msg)) = fail {
+        if let Some((idx, _case, msg)) = fail.as_ref().filter(|f| f.2.contains("harness:")) {
+            // a failure of the machinery itself (external tool, scratch dir, ...): inconclusive
+            eprintln!("[{}] {driver}: HARNESS ERROR at case {idx}: {msg}", self.prop);
+            self.harness_errors.push(format!("{driver}#{idx}: {msg}"));
+        } else if let Some((idx, case, msg)) = fail {
             // Unknown-key "Known" verdicts never get here; this is a real violation.
             let h = hash_str(&format!("{driver}{}", case));
             let path = self
@@ -658,6 +664,10 @@ impl Ctx {
             "[{}] {} seed={} evaluations={} distinct_nontrivial={} violations={} wall={:.1}s",
             self.prop, self.tier.name(), self.seed, self.evaluations, distinct, violations.len(), wall
         );
+        if !self.harness_errors.is_empty() && violations.is_empty() {
+            eprintln!("[{}] inconclusive: {} harness error(s)", self.prop, self.harness_errors.len());
+            return 2;
+        }
         if violations.is_empty() {
             0
         } else {
